@@ -399,14 +399,25 @@ func runC15History(t *testing.T, rec *Recorder, r *rand.Rand) {
 			})
 			first = false
 		} else {
-			// CLI between two runs
-			synctest.Test(t, func(t *testing.T) {
+			// CLI between two runs: `fan reset` is the real command in a child process (cmd.Execute), `fan init`
+			// (which takes real time for the analysis) is emulated by its body in a bubble
+			id := fansCfg[r.Intn(len(fansCfg))].ID
+			if x < 8 {
 				cfg := RunCfg{Parallel: true, Dir: dir, Fans: fansCfg}
 				h := NewRunHarness(rec, cfg)
-				defer h.Close(false)
-				id := fansCfg[r.Intn(len(fansCfg))].ID
-				_ = h.Cli(id, x >= 8)
-			})
+				if err := h.CliReset(id); err != nil {
+					h.Close(false)
+					panic(err)
+				}
+				h.Close(false)
+			} else {
+				synctest.Test(t, func(t *testing.T) {
+					cfg := RunCfg{Parallel: true, Dir: dir, Fans: fansCfg}
+					h := NewRunHarness(rec, cfg)
+					defer h.Close(false)
+					_ = h.Cli(id, true)
+				})
+			}
 		}
 	}
 }
